@@ -158,6 +158,7 @@ func Encode(a *Archive, p *Presentation) []byte {
 		}
 		members = append(members, member{t.Name, EncodeCSV(header, rows, style, crlf, trailing, bom, r)})
 	}
+	nReal := len(members)
 	if !p.Plain {
 		if r.Chance(1, 2) {
 			extras := []member{
@@ -183,6 +184,21 @@ func Encode(a *Archive, p *Presentation) []byte {
 					members = append(members, e)
 					p.use("extra-member")
 				}
+			}
+		}
+		if r.Chance(1, 2) && nReal > 0 {
+			// decoys: members whose names are near misses of a supported file name (hidden / AppleDouble / backup / padded /
+			// re-cased), holding that file's header and no rows; an unknown name must stay unknown
+			real := members[r.Intn(nReal)]
+			hdr := real.data
+			if i := bytes.IndexByte(hdr, '\n'); i >= 0 {
+				hdr = hdr[:i+1]
+			}
+			n := real.name
+			names := []string{"." + n, "._" + n, "__MACOSX/._" + n, n + "~", n + ".txt", "x" + n, strings.ToUpper(n[:1]) + n[1:], " " + n, n + " ", ".." + n, strings.TrimSuffix(n, ".txt"), strings.TrimSuffix(n, ".txt") + ".csv"}
+			for k := 0; k < 1+r.Intn(3); k++ {
+				members = append(members, member{core.Pick(r, names), hdr})
+				p.use("decoy-member")
 			}
 		}
 		if r.Chance(2, 3) {
